@@ -91,8 +91,12 @@ _state = {}
 
 
 def _res():
+    """translator output; if fold.rs/visitor.rs are not recognised the oracle still works from the node definitions"""
     if "res" not in _state:
-        _state["res"] = T.translate()
+        try:
+            _state["res"] = T.translate()
+        except T.TranslateError:
+            _state["res"] = T.translate_schema_only()
     return _state["res"]
 
 
@@ -310,12 +314,12 @@ def decode_words(ws):
 
 def req_tree(req):
     ws = req.split(" ")
-    key = ws[1]
+    key = (ws[0].partition(":")[2], ws[1])
     c = _state.setdefault("tree_cache", {})
     if key not in c:
         if len(c) > 64:
             c.clear()
-        c[key] = decode_words(ws[2:])
+        c[key] = decode_words(ws[3:] if ws[0].startswith("visit") else ws[2:])
     return c[key]
 
 
@@ -550,7 +554,9 @@ def _coverage(res, trees):
 
 
 def _nontrivial(r):
-    ws = r.split(" ", 9)
+    ws = r.split(" ", 10)
+    if ws[0].startswith("visit"):
+        ws = ws[:2] + ws[3:]
     return not (len(ws) > 7 and ws[6] == "L" and ws[7] == "0")
 
 
@@ -565,10 +571,20 @@ def _build(ctx):
     streams = []
     all_trees = []
     dropped = {}
+    bins = {"default": hbin}
+    vkinds = core.run_lines([hbin], ["vkinds -"])[0]
+    if not re.fullmatch(r"[A-Za-z,]+", vkinds):
+        raise RuntimeError("harness did not list its visit kinds: " + vkinds[:100])
     for g in groups:
         srcs = list(dict.fromkeys(g["sources"]))
         mode = g.get("mode", "")
-        dbgs = _dbg_all(hbin, srcs, jobs, mode)
+        fs = g.get("features", "default")
+        if fs not in bins:
+            rc, out, b = core.cargo_build(HARNESS["bin"], fs)
+            if rc != 0:
+                raise RuntimeError(f"cargo build of pvh_c12 [{fs}] failed: " + out[-600:])
+            bins[fs] = b
+        dbgs = _dbg_all(bins[fs], srcs, jobs, mode)
         reqs_by_op = {op: [] for op in g["ops"]}
         nd = 0
         for s, d in zip(srcs, dbgs):
@@ -583,12 +599,14 @@ def _build(ctx):
                 raise RuntimeError(f"Debug text of {s[:60]!r} not understood: {e}")
             if g.get("coverage", True):
                 all_trees.append(decode_words(words))
-            tail = hexs(s) + " " + " ".join(words)
+            tree = " ".join(words)
             for op in g["ops"]:
-                reqs_by_op[op].append(f"{op}{mode} {tail}")
+                extra = vkinds + " " if op == "visit" else ""
+                reqs_by_op[op].append(f"{op}{mode} {hexs(s)} {extra}{tree}")
         for op in g["ops"]:
             streams.append(Stream(f"{g['name']}-{op}", reqs_by_op[op], kind=g["kind"], exhaustive=False,
                                   note=g.get("note", "") + (f" ({nd} sources not accepted by the parser were dropped)" if nd else ""),
+                                  harness=None if fs == "default" else {"bin": HARNESS["bin"], "features": fs},
                                   nontrivial=_nontrivial))
     cov = _coverage(res, all_trees)
     ctx.extra["input_coverage"] = cov
